@@ -145,6 +145,7 @@ func (s *segment) remove() error {
 func (s *segment) closeAndRemove() error {
 	err1 := s.close()
 	err2 := s.remove()
+	verifPoint("segment.removed")
 	if err1 != nil {
 		return err1
 	}
